@@ -17,5 +17,6 @@ func reg1(name string, s func() any, f func(any)) {
 
 func init() {
 	reg0("C17Clean", HarnessC17Clean)
+	reg1("C01Lookup", SetupC01Lookup, HarnessC01Lookup)
 	reg1("C10Parse", SetupC10Parse, HarnessC10Parse)
 }
